@@ -486,6 +486,9 @@ func (ct *c13Table) value(r *core.Rng, col int, state int, id uint64) hist.Value
 	if n > sp.declared && (sp.typ == ev.TVarchar || sp.typ == ev.TVarString || sp.typ == ev.TString) {
 		n = sp.declared
 	}
+	if sp.w >= 3 && sp.typ != ev.TGeometry && r.Chance(1, 24) {
+		n = 1<<20 + r.Intn(64) // a row image of more than a megabyte (with NULL / empty / small siblings)
+	}
 	var data []byte
 	switch r.Intn(4) {
 	case 0:
